@@ -37,9 +37,33 @@ def run_twin(function, contract, seed=0, budget=400, want=None, timeout=120):
             pass
 
 
+def replay_probe(violation, seed):
+    """a violation found by a native probe (bounded): run the probe again on the current tree and look for the same failure"""
+    import json, subprocess
+    from pyvc import extract
+    ti = violation.get('twin_input') or {}
+    root = os.path.dirname(os.path.dirname(os.path.abspath(__file__)))
+    probe = 'probe_builder' if ti.get('step') else None
+    if probe is None:
+        return None
+    try:
+        pr = subprocess.run(['/venv/bin/python', os.path.join(root, 'pyvc', probe + '.py'), extract.REPO, str(seed), '600'],
+                            capture_output=True, text=True, timeout=1800)
+        pd = json.loads(pr.stdout.strip().splitlines()[-1])
+    except Exception as e:
+        return dict(reproduced=False, note='probe did not run: %r' % (e,))
+    for f in pd.get('failures', []):
+        if f.get('step') == ti.get('step') and f.get('clause') == ti.get('clause'):
+            return dict(reproduced=True, function=violation.get('function'), failing_input=f,
+                        note='postcondition of the class-builder step evaluated to False while the real metaclass built this declaration')
+    return dict(reproduced=False, note='the postcondition did not fail on this tree (bounded corpus, %d scenarios)' % len(pd.get('scenarios', [])))
+
+
 def try_replay(pid, violation, seed=0):
     from pyvc.check import load_contracts
     fn = violation.get('function', '')
+    if (violation.get('twin_input') or {}).get('step'):
+        return replay_probe(violation, seed)
     contracts = load_contracts()
     c = contracts.get(fn)
     if c is None:
